@@ -37,7 +37,7 @@ func gen(t *rapid.T) *Case {
 	c.Kind = rapid.SampledFrom([]string{"error", "error", "error", "restart"}).Draw(t, "kind")
 	c.Point = rapid.IntRange(0, 63).Draw(t, "point")
 	// (rapid favours the bounds of a range: two interior values keep this rare, each slow case costs 2.3 s)
-	if rapid.IntRange(0, 9).Draw(t, "slow-a") == 4 && rapid.IntRange(0, 5).Draw(t, "slow-b") == 3 {
+	if rapid.IntRange(0, 9).Draw(t, "slow-a") == 4 && rapid.IntRange(0, 2).Draw(t, "slow-b") == 1 {
 		// not a failure at all: one cache call answers late (longer than every timeout data-server puts on it)
 		c.Target, c.Kind = "cache", "slow"
 	}
